@@ -142,6 +142,10 @@ pub struct HistCfg {
     /// SimDir only: writers accept at most 1000 bytes per write call (short writes, as `io::Write` allows)
     #[serde(default)]
     pub short_writes: bool,
+    /// every new writer (initial, after drop / wait_merging_threads / Index reopen) switches the index's
+    /// docstore_compression (lz4 <-> none): segments written with different codecs coexist and are merged
+    #[serde(default)]
+    pub codec_switch: bool,
 }
 pub fn cfg_strategy(dirs: &'static [DirKind]) -> impl Strategy<Value = HistCfg> {
     (
@@ -152,8 +156,9 @@ pub fn cfg_strategy(dirs: &'static [DirKind]) -> impl Strategy<Value = HistCfg> 
         prop::sample::select(dirs),
         prop::bool::weighted(0.3),
         prop::bool::weighted(0.25),
+        prop::bool::weighted(0.3),
     )
-        .prop_map(|(threads, flush_every, policy, sorted, dir, tiny_blocks, short_writes)| HistCfg { threads, flush_every, policy, sorted, dir, tiny_blocks, short_writes })
+        .prop_map(|(threads, flush_every, policy, sorted, dir, tiny_blocks, short_writes, codec_switch)| HistCfg { threads, flush_every, policy, sorted, dir, tiny_blocks, short_writes, codec_switch })
 }
 
 pub struct Fields {
@@ -206,6 +211,8 @@ pub fn tmp_root() -> PathBuf {
 /// The interpreter: executes ops against tantivy and against the sequential model.
 pub struct Env {
     pub cfg: HistCfg,
+    /// number of writers created so far (codec_switch: parity selects the doc store codec)
+    pub writers_created: u32,
     pub dir: DirHandle,
     pub tempdir: Option<tempfile::TempDir>,
     pub index: Index,
@@ -317,6 +324,7 @@ impl Env {
             zombie_merge_possible: false,
             delete_all_while_dirty: false,
             commit_spans: vec![],
+            writers_created: 0,
         };
         env.new_writer()?;
         Ok(env)
@@ -326,6 +334,11 @@ impl Env {
         WriterCfg { threads: self.cfg.threads as usize, flush_every: self.cfg.flush_every as usize, table_bits: 10, merge_threads: 4 }
     }
     pub fn new_writer(&mut self) -> Result<(), Failure> {
+        if self.cfg.codec_switch {
+            // (the writer takes its own copy of the Index, settings included, when it is created)
+            self.writers_created += 1;
+            self.index.settings_mut().docstore_compression = if self.writers_created % 2 == 0 { tantivy::store::Compressor::Lz4 } else { tantivy::store::Compressor::None };
+        }
         let w = writer(&self.index, self.writer_cfg()).or_fail("new_writer_failed")?;
         self.writer = Some(w);
         self.apply_policy();
